@@ -122,6 +122,39 @@ def gen_input(rng, nsrc, maxmsg, allow_unsorted=True, allow_window=True, allow_c
     return dict(sources=sources, opts=opts, window=window, as_dir=as_dir)
 
 
+def args_input(rng, opts_choices=None):
+    """several ARGUMENTS of which some are directories: PathIds — the tie-breaker of the merge — follow
+    the order in which the arguments were NAMED, a directory standing for its files in sorted path
+    order.  Directories are large (many small files: walking them takes longer than opening a single
+    file) and named before, between and after plain files; every source draws its instants from one
+    small common set, so ties across arguments are everywhere."""
+    base = EPOCH0 * 10**9
+    pool = [base + k * 10**9 + rng.choice([0, 0, 500000, 999999000]) for k in range(6)]
+    shape = rng.choice([["dir", "file"], ["dir", "dir"], ["file", "dir", "file"], ["dir", "file", "dir"],
+                        ["dir", "dir", "file"], ["file", "dir"]])
+    sources, groups = [], []
+    sid = 0
+    for gi, kind in enumerate(shape):
+        nfiles = rng.randrange(12, 40) if kind == "dir" else 1
+        if kind == "dir" and gi > 0 and rng.random() < 0.5:
+            nfiles = rng.randrange(2, 6)               # a small directory after a big one
+        gname = "%s%d" % (rng.choice(["a", "m", "z"]), gi)   # argument order is not name order
+        grp = []
+        for j in range(nfiles):
+            n = rng.choice([1, 2, 3, 4])
+            ts = sorted(rng.choice(pool) for _ in range(n))
+            off = rng.choice(OFFSETS)
+            msgs = [dict(inst=t, off=off, cont=0 if rng.random() < 0.9 else 1, frac=9) for t in ts]
+            name = ("%s/f%03d.log" % (gname, j)) if kind == "dir" else ("%s-single.log" % gname)
+            grp.append(dict(sid=sid, msgs=msgs, kind="sorted", container="plain", name=name))
+            sid += 1
+        grp.sort(key=lambda q: q["name"])
+        sources += grp
+        groups.append(gname if kind == "dir" else grp[0]["name"])
+    opts = list(rng.choice(opts_choices or [["-n"]]))
+    return dict(sources=sources, opts=opts, window=None, as_dir=False, arg_groups=groups, args_shape=shape)
+
+
 def assign_names(rng, sources, as_dir):
     """names: argument order is a random permutation of name order unless passed as a directory"""
     nsrc = len(sources)
@@ -268,6 +301,7 @@ def write_input(inp, d, seed_words):
             lines = ["no timestamp on this line only %s words" % WORDS[(seed_words + k) % len(WORDS)] for k in range(4)]
         data = ("\n".join(lines) + "\n").encode()
         p = os.path.join(d, s["name"])
+        os.makedirs(os.path.dirname(p), exist_ok=True)
         if s["container"] == "gz":
             with gzip.GzipFile(p, "wb", mtime=0) as f:
                 f.write(data)
@@ -286,7 +320,9 @@ def argv(inp):
     a = ["--color", "never"] + list(inp["opts"])
     if inp["window"]:
         a += [inp["window"][0], inp["window"][1]]
-    if inp["as_dir"]:
+    if inp.get("arg_groups"):
+        a += [os.path.join(inp["dir"], g) for g in inp["arg_groups"]]
+    elif inp["as_dir"]:
         a.append(inp["dir"])
     else:
         a += [os.path.join(inp["dir"], s["name"]) for s in inp["sources"]]
@@ -319,7 +355,7 @@ def prefix_for(inp, s, m):
     o = inp["opts"]
     parts = []
     if "-n" in o or "-p" in o:
-        full = (lambda x: x["name"]) if "-n" in o else (lambda x: os.path.join(inp["dir"], x["name"]))
+        full = (lambda x: os.path.basename(x["name"])) if "-n" in o else (lambda x: os.path.join(inp["dir"], x["name"]))
         width = 0
         if "-w" in o:
             width = max([len(full(x)) for x in inp["sources"] if any(in_window(inp, mm) for mm in x["msgs"])] or [0])
